@@ -27,7 +27,7 @@ Inductive oev :=
 Definition pack_of (n : node) : upack :=
   match n_kind n with
   | KAct => if n_isset n then PSet else
-            match sp_u (n_spec n) with UIrq => PIrq | UMsg => PMsg | UBlock => PBlock | UParallel => PParallel | USequence => PSequence end
+            match sp_u (n_spec n) with UIrq => PIrq | UMsg => PMsg | UBlock => PBlock | UParallel => PParallel | USequence => PSequence | UFail => POther end
   | _ => PNone
   end.
 Definition observe_ev (e : eng) (nstatic : nat) (x : ev) : oev :=
